@@ -95,7 +95,7 @@ pub fn c06_insert_decode_8bit() {
     insert_decode_one(8, None);
 }
 
-// @h prop=C06 tier=quick kind=proof timeout=900 unwindset="drop_glue|drop_in_place:1;from_fn:258;insert_decode:258" inst="Huffman::insert_decode, one insertion into an all-Void table" bounds="symbolic symbol; 6-bit code word 0x2A (4 slots) and 3-bit code word 5 (32 slots)" desc="as c06_insert_decode_8bit, concrete code words"
+// @h memw=5 prop=C06 tier=quick kind=proof timeout=900 unwindset="drop_glue|drop_in_place:1;from_fn:258;insert_decode:258" inst="Huffman::insert_decode, one insertion into an all-Void table" bounds="symbolic symbol; 6-bit code word 0x2A (4 slots) and 3-bit code word 5 (32 slots)" desc="as c06_insert_decode_8bit, concrete code words"
 #[cfg_attr(kani, kani::proof, kani::unwind(3))]
 pub fn c06_insert_decode_6_and_3bit() {
     insert_decode_one(6, Some(0x2A));
@@ -110,8 +110,7 @@ pub fn c06_insert_decode_7_and_1bit() {
     insert_decode_one(1, Some(1));
 }
 
-// @h prop=C06 tier=thorough kind=proof timeout=3000 mem=26 unwindset="drop_glue|drop_in_place:1;from_fn|Decode.*map:258;insert_decode:258" inst="Decoder::next on a code with a 9-bit symbol (root entry 0 is Further: what >= 512 equiprobable symbols produce)" bounds="state: no pending bits, no further chunk" desc="end of item: next() is None and does not panic"
-#[cfg(feature = "thorough")]
+// @h prop=C06 tier=quick kind=proof timeout=900 memw=4 unwindset="drop_glue|drop_in_place:1;from_fn|Decode.*map:258;insert_decode:258" inst="Decoder::next on a code with a 9-bit symbol (root entry 0 is Further: what >= 512 equiprobable symbols produce)" bounds="state: no pending bits, no further chunk" desc="end of item: next() is None and does not panic"
 #[cfg_attr(kani, kani::proof, kani::unwind(3))]
 pub fn c06_decoder_end_further_root() {
     let code = Code::<u16>::decode_only(&[(7u16, 9, 0)]);
@@ -158,7 +157,7 @@ fn decoder_step_uniform(code: &Code<u8>, w: usize, syms: &[u8]) {
     cover!(avail > 0 && avail < 8, "a symbol decoded from a final partial byte");
 }
 
-// @h prop=C06 tier=quick kind=proof timeout=900 unwindset="from_fn|drop_glue|drop_in_place:258" inst="Decoder::next, two 1-bit codes (table written down directly), arbitrary mid-stream state" bounds="pending_bits <= 15, pending_byte < 2^pending_bits, at most one further chunk of 1..8 bits; symbols symbolic" desc="one step: the symbol whose code prefixes the remaining bit string, None iff no bits remain, remaining bits preserved; induction on the step covers items of any length"
+// @h memw=6 prop=C06 tier=quick kind=proof timeout=900 unwindset="from_fn|drop_glue|drop_in_place:258" inst="Decoder::next, two 1-bit codes (table written down directly), arbitrary mid-stream state" bounds="pending_bits <= 15, pending_byte < 2^pending_bits, at most one further chunk of 1..8 bits; symbols symbolic" desc="one step: the symbol whose code prefixes the remaining bit string, None iff no bits remain, remaining bits preserved; induction on the step covers items of any length"
 #[cfg_attr(kani, kani::proof, kani::unwind(3))]
 pub fn c06_decoder_step_1bit() {
     let a = sym::u8();
@@ -168,7 +167,7 @@ pub fn c06_decoder_step_1bit() {
     sym::forget(code);
 }
 
-// @h prop=C06 tier=quick kind=proof timeout=900 unwindset="from_fn|drop_glue|drop_in_place:258" inst="Decoder::next, four 2-bit codes (table written down directly), arbitrary mid-stream state" bounds="pending_bits <= 15, at most one further chunk of 1..8 bits" desc="as c06_decoder_step_1bit"
+// @h memw=5 prop=C06 tier=quick kind=proof timeout=900 unwindset="from_fn|drop_glue|drop_in_place:258" inst="Decoder::next, four 2-bit codes (table written down directly), arbitrary mid-stream state" bounds="pending_bits <= 15, at most one further chunk of 1..8 bits" desc="as c06_decoder_step_1bit"
 #[cfg_attr(kani, kani::proof, kani::unwind(3))]
 pub fn c06_decoder_step_2bit() {
     let syms = sym::bytes::<4>();
@@ -229,7 +228,7 @@ fn push_one_entry(max_bits: usize, n: usize) {
     sym::forget(bytes);
 }
 
-// @h prop=C06 tier=quick kind=proof timeout=900 unwindset="from_fn|drop_glue|drop_in_place:258" inst="push_symbols + Encoder, one-entry code" bounds="code length 1..4 bits, any code word, pre-state of <= 16 bits at any alignment, 2 symbols" desc="range = (old end, old end + sum of code lengths), byte length = ceil(bits/8), earlier bits unchanged, new bits are the code words"
+// @h memw=7 prop=C06 tier=quick kind=proof timeout=900 unwindset="from_fn|drop_glue|drop_in_place:258" inst="push_symbols + Encoder, one-entry code" bounds="code length 1..4 bits, any code word, pre-state of <= 16 bits at any alignment, 2 symbols" desc="range = (old end, old end + sum of code lengths), byte length = ceil(bits/8), earlier bits unchanged, new bits are the code words"
 #[cfg_attr(kani, kani::proof, kani::unwind(5))]
 pub fn c06_push_one_entry_small() {
     push_one_entry(4, 2);
@@ -262,5 +261,49 @@ pub fn c06_decoder_step_3bit() {
     let syms = sym::bytes::<8>();
     let code = Code::<u8>::uniform_table(3, &syms);
     decoder_step_uniform(&code, 3, &syms);
+    sym::forget(code);
+}
+
+// @h prop=C06 tier=thorough kind=proof timeout=3000 memw=12 unwindset="drop_glue|drop_in_place:1;from_fn|Decode.*map:258;insert_decode:258" inst="Decoder::next through a NESTED table: code {A: nine 0-bits (9-bit code, second-level table), B: one 1-bit}, tables built by the real insert_decode" bounds="arbitrary mid-stream state (pending_bits <= 15, at most one further chunk) whose remaining bit string starts with a whole code word (1, or nine 0s)" desc="one step: B for a leading 1, A for nine leading 0s (the decoder descends into the second-level table), remaining bits preserved; codes deeper than one byte"
+#[cfg(feature = "thorough")]
+#[cfg_attr(kani, kani::proof, kani::unwind(3))]
+pub fn c06_decoder_step_nested() {
+    let a = sym::u8();
+    let b = sym::u8();
+    let code = Code::<u8>::decode_only(&[(a, 9, 0), (b, 1, 1)]);
+    let pending_bits = sym::upto(15);
+    let pending_byte = sym::u16();
+    sym::assume((pending_byte as u32) < (1u32 << pending_bits));
+    let has_next = sym::bool();
+    let n = sym::upto(8);
+    let c = sym::u8();
+    sym::assume(n >= 1 && (c as u32) < (1u32 << n));
+    // model of the bit string the decoder sees: the pending bits, followed by the chunk if it is pulled - either at
+    // once (fewer than 8 bits pending) or after descending into the second-level table (8 zero bits consumed, fewer
+    // than 8 left)
+    let pulled_first = has_next && pending_bits < 8;
+    let avail1 = if pulled_first { pending_bits + n } else { pending_bits };
+    let bits1: u32 = if pulled_first { ((pending_byte as u32) << n) | c as u32 } else { pending_byte as u32 };
+    sym::assume(avail1 >= 1);
+    let first_is_one = (bits1 >> (avail1 - 1)) & 1 == 1;
+    let descends = !first_is_one && avail1 >= 8 && (bits1 >> (avail1 - 8)) == 0;
+    let pulled_late = descends && has_next && !pulled_first && avail1 - 8 < 8;
+    let avail = if pulled_late { avail1 + n } else { avail1 };
+    let bits: u32 = if pulled_late { (bits1 << n) | c as u32 } else { bits1 };
+    // well-formed data: a leading 1 (symbol B), or nine leading 0s (symbol A)
+    let nine_zeros = descends && avail >= 9 && (bits >> (avail - 9)) == 0;
+    sym::assume(first_is_one || nine_zeros);
+    let next = if has_next { Some((c, n)) } else { None };
+    let (got, st) = code.decode_step(pending_byte, pending_bits, next);
+    let used = if first_is_one { 1 } else { 9 };
+    match got {
+        None => assert!(false, "C06: decoder stops although a whole code word remains"),
+        Some(s) => assert!(*s == if first_is_one { b } else { a }, "C06: decoder yields the wrong symbol through the nested table"),
+    }
+    assert!(st.1 == avail - used, "C06: decoder consumed a wrong number of bits (nested table)");
+    assert!(st.0 as u32 == bits & ((1u32 << (avail - used)) - 1), "C06: decoder corrupted the remaining bits (nested table)");
+    cover!(nine_zeros && pulled_late, "descended into the second-level table, then pulled the chunk");
+    cover!(nine_zeros && !pulled_late, "descended into the second-level table");
+    cover!(first_is_one && pulled_first, "one-bit symbol after pulling a chunk");
     sym::forget(code);
 }
